@@ -19,6 +19,7 @@ struct Report {
   std::vector<std::string> samples;        // up to 8 readable cases
   std::string fail_msg;                    // set when the property body returns false
   std::string fail_kind;                   // "violation" or "harness"
+  uint64_t out_hash = 0;                   // optional: hash of everything the case computed (compared across differently built binaries, C18)
   void label(const std::string &s, long n = 1) { labels[s] += n; }
   void exclude(const std::string &s) { excluded[s]++; }
   void metric_max(const std::string &s, double v) { auto it = metrics.find(s); if (it == metrics.end() || v > it->second) metrics[s] = v; }
